@@ -776,3 +776,77 @@ func (g *G) Rich(depth int) geom.Geometry {
 	}
 	return x
 }
+
+// GridTyped returns geometries whose edges all lie on the unit grid lines of
+// the lattice (rectilinear cell polygons, axis-parallel walks, lattice points),
+// so that two such operands overlap collinearly and share vertices almost always.
+func (g *G) GridTyped(t geom.GeometryType) geom.Geometry {
+	gridPoly := func() (geom.Polygon, bool) {
+		for tries := 0; tries < 30; tries++ {
+			if rs := g.cellPolygon(); rs != nil {
+				p := g.polyFromRings(rs)
+				if valid(p.AsGeometry()) {
+					return p, true
+				}
+			}
+		}
+		return geom.Polygon{}, false
+	}
+	gridLine := func() geom.LineString {
+		for tries := 0; tries < 30; tries++ {
+			p := g.rp()
+			ps := []ip{p}
+			for n := g.R.Range(1, 7); n > 0; n-- {
+				d := [4]ip{{1, 0}, {-1, 0}, {0, 1}, {0, -1}}[g.R.Intn(4)]
+				k := g.R.Range(1, 3)
+				q := ip{p.x + d.x*k, p.y + d.y*k}
+				if q.x < 0 || q.y < 0 || q.x > g.Cfg.Side || q.y > g.Cfg.Side {
+					continue
+				}
+				ps = append(ps, q)
+				p = q
+			}
+			l := g.line(ps)
+			if valid(l.AsGeometry()) {
+				return l
+			}
+		}
+		return g.LineString()
+	}
+	switch t {
+	case geom.TypePolygon:
+		if p, ok := gridPoly(); ok {
+			return p.AsGeometry()
+		}
+		return g.Polygon().AsGeometry()
+	case geom.TypeMultiPolygon:
+		for tries := 0; tries < 20; tries++ {
+			a, ok1 := gridPoly()
+			b, ok2 := gridPoly()
+			if ok1 && ok2 {
+				mp := geom.NewMultiPolygon([]geom.Polygon{a, b})
+				if valid(mp.AsGeometry()) {
+					return mp.AsGeometry()
+				}
+			}
+		}
+		return g.MultiPolygon().AsGeometry()
+	case geom.TypeLineString:
+		return gridLine().AsGeometry()
+	case geom.TypeMultiLineString:
+		n := g.R.Range(1, 3)
+		ls := make([]geom.LineString, n)
+		for i := range ls {
+			ls[i] = gridLine()
+		}
+		return geom.NewMultiLineString(ls).AsGeometry()
+	case geom.TypeGeometryCollection:
+		n := g.R.Range(1, 3)
+		ms := make([]geom.Geometry, n)
+		for i := range ms {
+			ms[i] = g.GridTyped(AllTypes[g.R.Intn(6)])
+		}
+		return geom.NewGeometryCollection(ms).AsGeometry()
+	}
+	return g.Typed(t, 0)
+}
